@@ -59,6 +59,8 @@ def encode_unit_x86(unit, isa="x64") -> Tuple[bytes, Dict[int, Tuple[str, int]]]
         return b"\xff\xe0", {}
     if k == "icall":
         return b"\xff\xd0", {}
+    if k == "sysc":  # system call: control comes back behind it (Syscall + Fallthrough edges)
+        return (b"\x0f\x05" if isa == "x64" else b"\xcd\x80"), {}
     if k == "ref":  # lea L+addend(%rip), %rax : ordinary insn with operand
         if isa == "x64":
             return b"\x48\x8d\x05\0\0\0\0", {3: (unit[1], unit[2])}
@@ -93,6 +95,8 @@ def encode_unit_fixed4(unit, isa) -> Tuple[bytes, Dict[int, Tuple[str, int]]]:
             return w(0xD61F0000), {}  # br x0
         if k == "icall":
             return w(0xD63F0000), {}  # blr x0
+        if k == "sysc":
+            return w(0xD4000001), {}  # svc #0
         if k == "ref":
             return w(0x10000000), {0: (unit[1], unit[2])}  # adr x0, L
     if k == "d":
